@@ -756,7 +756,8 @@ def main(chk, args):
     chk.exhaustive = not quick     # quick: parameter tuples are sampled for texts of 3+ tokens
     chk.rule = ('observations = one call of the real code each: (text, parameter tuple) for wrap and rst - texts are ALL token '
                 'strings up to 3 (quick) / 4 (thorough) tokens over the 16-token alphabet of Text.tla plus TLC random walks of '
-                '5..8 tokens, crossed with every parameter tuple of the specification (offset < width); (layout, ending) for '
+                '5..8 tokens, crossed with every parameter tuple of the specification (offset < width; quick tier: every tuple for texts '
+                'up to 2 tokens or without words, 3 seeded tuples otherwise); (layout, ending) for '
                 'fix_whitespace - all layouts up to 2 items with every gap (thorough: 3 items over 4 gaps) plus random walks of '
                 '4..6 items, and every .py file emitted for two sample APIs as handed to the formatter by the generator plus six '
                 'perturbations; (doc, origin, module, docstring owner) for embedding.  distinct non-trivial = distinct '
